@@ -96,6 +96,15 @@ CHECKS["C07"] = dict(
     note=NOTE_BASE + "Modelled: driver property tree, number rendering (C10 model), nearest-double rounding of parsed numbers, base64.",
     technique="Coq proof (equational characterisation of getProperties over the driver model) + correspondence on real Router deployments",
     design="4/C07")
+CHECKS["C14"] = dict(
+    text="Theorems over the driver model for every element, handler list and value: write_then_default (every Write handler once, in order, plain "
+         "before anything changes, coroutines spawned; veto => state and wire untouched; otherwise exactly an assignment), "
+         "vetoed_write_changes_and_publishes_nothing, assignment_publishes_once_then_change (one update iff enabled; Change once each with (old,new) "
+         "iff the value changed), read_handlers_run_before_publication, reading_never_publishes. Correspondence: generated drivers with real @on(...) "
+         "handlers (0-2 per kind, plain/coroutine, vetoing, refreshing, shared), traces of calls/publications and coroutine runs compared with the model.",
+    note=NOTE_BASE + "Modelled: coroutine handlers as 'spawned, run after the operation'; asyncio task scheduling itself is not modelled.",
+    technique="Coq proof (trace equations of the driver model) + trace correspondence with real handlers",
+    design="4/C14")
 PENDING = {}
 props = [json.loads(l) for l in open(os.path.join(V, "properties.jsonl"))]
 checks, na = [], []
